@@ -205,11 +205,18 @@ func vEvent(s string)                { vState.events = append(vState.events, s) 
 func vBlockCount() int               { return 0 }
 func vBlockDur(i int) int64          { return 0 }
 func vBlockKind(i int) string        { return "" }
+
+// vBlockAlts(i): for a select-timer wait, how many other open channels the select listens on.
+func vBlockAlts(i int) int { return 1 }
 func vGlobalWrites() int             { return 0 }
 func vGlobalWriteSite() string       { return "" }
 func vFreeze(root interface{})       {}
 func vFrozenWrites() int             { return 0 }
 func vGoDepth() int                  { return 0 }
+
+// vDepthBound(n): from here on, interpreted Go recursion deeper than n frames is a violation on
+// this path (natively the same input overflows the goroutine stack: a fatal error).
+func vDepthBound(n int) {}
 func vSteps() int64                  { return 0 }
 
 var verifEntries = map[string]func(){}
